@@ -49,6 +49,7 @@ def tasks(tier, seed):
     for N0, seq in ((6, ((4, True), (6, True), (8, True), (5, True), (4, True), (3, False), (7, False), (3, False))), (3, ((5, False), (2, True), (5, True), (2, False)))):
         T.append(('sizes', N0, seq))
     T.append(('kron',))
+    T.append(('kronconv',))
     T.append(('bcnd',))
     return T
 
@@ -68,6 +69,8 @@ def run_task(rep, task):
         sizes_case(rep, task[1], task[2])
     elif task[0] == 'kron':
         kron_case(rep)
+    elif task[0] == 'kronconv':
+        kronconv_case(rep)
     elif task[0] == 'bcnd':
         bcnd_case(rep)
 
@@ -467,6 +470,34 @@ def kron_case(rep):
                         spec[i, j] = sum(rv(D1[j, k]) * U[i, k] for k in range(N1)) if np.any(D1[j]) else z3.RealVal(0)
             decide(rep, name, close(got, list(spec.ravel()), rv(Fraction(1, 10**10) * 100)), u, 'kronecker-expansion',
                    lambda cv, Dn=Dn, D1=D1, axis=axis: float(np.abs(Dn @ cv - ((D1 @ cv.reshape(N0, N1)) if axis == 0 else (cv.reshape(N0, N1) @ D1.T)).ravel()).max()))
+
+
+def kronconv_case(rep):
+    """basis conversions of the N-D helper act as the tensor product of the 1-D conversions on EVERY axis asked for (all axes by default, or a chosen
+    subset), for two Chebyshev axes (conv=...) and two ultraspherical axes (p_in / p_out), decided on an arbitrary symbolic coefficient array"""
+    for (base, N0, N1, kw) in (('chebychev', 3, 4, {'conv': 'T2U'}), ('chebychev', 4, 3, {'conv': 'D2T'}), ('ultraspherical', 3, 4, {'p_in': 0, 'p_out': 1}), ('ultraspherical', 4, 4, {'p_in': 1, 'p_out': 2})):
+        H = SpectralHelper(debug=False)
+        H.add_axis(base=base, N=N0)
+        H.add_axis(base=base, N=N1)
+        H.add_component('u')
+        H.setup_fft()
+        C0 = np.asarray(H.axes[0].get_basis_change_matrix(**kw).todense(), dtype=float)
+        C1 = np.asarray(H.axes[1].get_basis_change_matrix(**kw).todense(), dtype=float)
+        u = [z3.Real(f'u{j}') for j in range(N0 * N1)]
+        U = np.array(u, dtype=object).reshape(N0, N1)
+        for axes, lab in ((None, 'all-axes'), ((0,), 'axis0'), ((1,), 'axis1'), ((0, 1), 'axes01')):
+            name = f'kronconv/{base}{N0}x{N1}/{"-".join(f"{k}{v}" for k, v in kw.items())}/{lab}'
+            Cn = np.asarray((H.get_basis_change_matrix(**kw) if axes is None else H.get_basis_change_matrix(axes=axes, **kw)).todense(), dtype=float)
+            use0 = axes is None or 0 in axes
+            use1 = axes is None or 1 in axes
+            A0 = C0 if use0 else np.eye(N0)
+            A1 = C1 if use1 else np.eye(N1)
+            spec = np.empty((N0, N1), dtype=object)
+            for i in range(N0):
+                for j in range(N1):
+                    spec[i, j] = sum(rv(A0[i, k] * A1[j, l]) * U[k, l] for k in range(N0) for l in range(N1) if A0[i, k] != 0 and A1[j, l] != 0) + z3.RealVal(0)
+            decide(rep, name, close(matvec(Cn, u), list(spec.ravel()), rv(Fraction(1, 10**10) * 100)), u, 'kronecker-basis-conversion',
+                   lambda cv, Cn=Cn, A0=A0, A1=A1: float(np.abs(Cn @ cv - (A0 @ cv.reshape(N0, N1) @ A1.T).ravel()).max()))
 
 
 def bcnd_case(rep):
